@@ -164,6 +164,7 @@ def gen_case(rng, quick):
             c["X"] = [[x * 2.0 ** -kk[j] for j, x in enumerate(row)] for row in X]
             c["Y"] = [[y * 2.0 ** -kk[j] for j, y in enumerate(row)] for row in Y]
             c.update(tiny_k=kk, with_std=True, atol=0.0, rtol=0)
+    c["present"] = gen_present(rng, c)
     return c
 
 
@@ -179,18 +180,53 @@ def gen_exact_case(rng):
     wkind = rng.choice(["none", "uniform"])
     w = None if wkind == "none" else [rng.choice([0.5, 1.0, 2.0, 4.0])] * n
     Y = [[float(rng.randint(-8, 8)) for _ in range(d)] for _ in range(rng.randint(1, 3))]
-    return dict(X=X, w=w, Y=Y, wkind=wkind, family="exact", exact=True,
-                with_mean=rng.random() < 0.6, with_std=rng.random() < 0.8,
-                column_wise=rng.random() < 0.5, rtol=0, atol=1e-12,
-                copy=rng.random() < 0.3, as_int=rng.random() < 0.5)
+    c = dict(X=X, w=w, Y=Y, wkind=wkind, family="exact", exact=True,
+             with_mean=rng.random() < 0.6, with_std=rng.random() < 0.8,
+             column_wise=rng.random() < 0.5, rtol=0, atol=1e-12,
+             copy=rng.random() < 0.3, as_int=rng.random() < 0.5)
+    c["present"] = gen_present(rng, c)
+    return c
 
 
 # ------------------------------------------------------------------------------ implementation
+FLAG_KINDS = ["bool", "bool", "np_bool", "int"]
+TOL_KINDS = ["plain", "plain", "np64", "np32", "int0"]
+
+
+def gen_present(rng, par):
+    """how the constructor / set_params receives each parameter: flags as python bool, numpy.bool_ or the
+    integers 0/1 (truthiness is the documented semantics); tolerances as python number, numpy.float64,
+    numpy.float32 or the integer 0.  A float32 tolerance IS a different number: the case is updated to the
+    value the implementation receives, so model and oracle work with exactly that value."""
+    pr = {k: rng.choice(FLAG_KINDS) for k in ("with_mean", "with_std", "column_wise", "copy")}
+    for k in ("rtol", "atol"):
+        kind = rng.choice(TOL_KINDS)
+        if kind == "int0" and par[k] != 0:
+            kind = "np64"
+        if kind == "np32":
+            par[k] = float(np.float32(par[k]))
+        pr[k] = kind
+    return pr
+
+
+def presented(par):
+    """constructor keyword arguments of a parameter dict in the presentation recorded in par['present']"""
+    pr = par.get("present") or {}
+    out = {}
+    for k in ("with_mean", "with_std", "column_wise", "copy"):
+        if k not in par:
+            continue
+        v, kind = bool(par[k]), pr.get(k, "bool")
+        out[k] = np.bool_(v) if kind == "np_bool" else (int(v) if kind == "int" else v)
+    for k in ("rtol", "atol"):
+        v, kind = par[k], pr.get(k, "plain")
+        out[k] = (np.float64(v) if kind == "np64" else np.float32(v) if kind == "np32" else 0 if kind == "int0" else v)
+    return out
+
+
 def make(case):
     from skmatter.preprocessing import StandardFlexibleScaler
-    return StandardFlexibleScaler(with_mean=case["with_mean"], with_std=case["with_std"],
-                                  column_wise=case["column_wise"], rtol=case["rtol"], atol=case["atol"],
-                                  copy=bool(case.get("copy", False)))
+    return StandardFlexibleScaler(**presented(dict(case, copy=bool(case.get("copy", False)))))
 
 
 def run_impl(case, X=None, w="case"):
@@ -495,8 +531,11 @@ def relational(case, rec):
 # compared call by call (outcome and every fitted attribute after the call) with the state
 # machine of coq/Model/ScalerObj.v.
 def gen_par(rng):
-    return dict(with_mean=rng.random() < 0.6, with_std=rng.random() < 0.75, column_wise=rng.random() < 0.5,
-                rtol=rng.choice([0, 0, 1e-6, 1e-3, 0.25]), atol=rng.choice([1e-12, 1e-12, 1e-8, 1e-3, 2.0]))
+    p = dict(with_mean=rng.random() < 0.6, with_std=rng.random() < 0.75, column_wise=rng.random() < 0.5,
+             rtol=rng.choice([0, 0, 1e-6, 1e-3, 0.25]), atol=rng.choice([1e-12, 1e-12, 1e-8, 1e-3, 2.0]),
+             copy=rng.random() < 0.3)
+    p["present"] = gen_present(rng, p)
+    return p
 
 
 ROUTES = ["fit", "fit", "fit_transform", "fit_transform", "pipeline"]
@@ -543,7 +582,8 @@ def gen_tall_trace(rng):
     n = rng.choice([1025, 1500, 2049, 4097, 5000])
     d = rng.randint(1, 2)
     par0 = dict(with_mean=rng.random() < 0.6, with_std=rng.random() < 0.9, column_wise=rng.random() < 0.5,
-                rtol=rng.choice([0, 0, 1e-6]), atol=1e-12)
+                rtol=rng.choice([0, 0, 1e-6]), atol=1e-12, copy=False)
+    par0["present"] = gen_present(rng, par0)
     cols = []
     for j in range(d):
         sc_, off = 10 ** rng.uniform(-2, 2), rng.choice([0.0, rng.uniform(-5, 5)])
@@ -612,14 +652,14 @@ def run_trace_impl(trace):
     side-effect free probe (transform(X), transform(Yprobe), inverse) used by the oracle"""
     from skmatter.preprocessing import StandardFlexibleScaler
     from sklearn.exceptions import NotFittedError
-    sc = StandardFlexibleScaler(**trace["par0"])
+    sc = StandardFlexibleScaler(**presented(trace["par0"]))
     par = dict(trace["par0"])
     obs = []
     for op in trace["ops"]:
         kind, mat, probe = 0, [], None
         try:
             if op["op"] == "set":
-                sc.set_params(**op["par"])
+                sc.set_params(**presented(op["par"]))
                 par = dict(op["par"])
             elif op["op"] == "fit":
                 X = np.array(op["X"], dtype=float)
@@ -944,6 +984,9 @@ def run(ctx):
         stats["n_lt_2"] += len(c["X"]) < 2
         stats["nonzero_rtol"] += c["rtol"] != 0
         stats["exact_family"] += c["exact"]
+        for k in ("column_wise", "with_std", "atol"):
+            pk = "%s:%s" % (k, c["present"][k])
+            stats.setdefault("presentations", {})[pk] = stats.get("presentations", {}).get(pk, 0) + 1
         stats["tiny_scale_cases"] = stats.get("tiny_scale_cases", 0) + bool(c.get("tiny_k"))
         stats["extreme_weight_factor"] = stats.get("extreme_weight_factor", 0) + (c["wkind"] == "scaled" and not 1e-200 < c.get("w_factor", 1) < 1e200)
         stats["extreme_weight_with_data_factor"] = stats.get("extreme_weight_with_data_factor", 0) + bool(c.get("data_factor"))
